@@ -494,7 +494,13 @@ func (e *executor) collectFieldsImpl(objectType *schema.ObjectType, selections [
 		skip := false
 		for _, directive := range selection.SelectionDirectives() {
 			if def := e.Schema.Directives()[directive.Name.Name]; def != nil && def.FieldCollectionFilter != nil {
-				if arguments, err := coerceArgumentValues(directive, def.Arguments, directive.Arguments, e.VariableValues); err == nil && !def.FieldCollectionFilter(arguments) {
+				if arguments, err := coerceArgumentValues(directive, def.Arguments, directive.Arguments, e.VariableValues); err != nil {
+					// The directive cannot be evaluated, e.g. because a variable holds null for a
+					// non-null argument. Report that to the client and leave the selection out
+					// instead of silently behaving as if the directive was not there.
+					e.Errors = append(e.Errors, err)
+					skip = true
+				} else if !def.FieldCollectionFilter(arguments) {
 					skip = true
 				}
 			}
